@@ -6,6 +6,7 @@ import (
 	"os"
 	"regexp"
 	"sort"
+	"go/types"
 	"strings"
 	"time"
 
@@ -50,9 +51,15 @@ func main() {
 	case "frames":
 		cmdFrames(os.Args[2:])
 	default:
+		if f, ok := extraCmds[os.Args[1]]; ok {
+			f(os.Args[2:])
+			return
+		}
 		usage()
 	}
 }
+
+var extraCmds = map[string]func([]string){}
 
 func mustLoad() *Program {
 	t0 := time.Now()
@@ -242,6 +249,25 @@ func cmdFrames(args []string) {
 			sort.Strings(ks)
 			for _, k := range ks {
 				fmt.Println("contents:", k)
+			}
+		}
+	}
+}
+
+func init() {
+	extraCmds["mapranges"] = func(args []string) {
+		p := mustLoad()
+		for _, n := range p.funcOrder {
+			fn := p.funcs[n]
+			for _, b := range fn.Blocks {
+				for _, ins := range b.Instrs {
+					if r, ok := ins.(*ssa.Range); ok {
+						if _, isMap := r.X.Type().Underlying().(*types.Map); isMap {
+							pos := p.fset.Position(r.Pos())
+							fmt.Printf("%s  %s:%d  over %s : %s\n", n, shortPath(pos.Filename, p.repo), pos.Line, exprName(r.X), r.X.Type())
+						}
+					}
+				}
 			}
 		}
 	}
